@@ -47,17 +47,23 @@ def load_findings():
     return json.load(open(path))["findings"]
 
 
+def _m(value, pat):
+    """pattern or list of patterns (fnmatch, case-sensitive); None / '*' match everything"""
+    if pat in (None, "*"):
+        return True
+    pats = pat if isinstance(pat, list) else [pat]
+    return any(fnmatch.fnmatchcase(str(value), p) for p in pats)
+
+
 def match_finding(findings, prop, v):
     for f in findings:
         if f.get("status") != "known" or f.get("property") != prop:
             continue
-        if not fnmatch.fnmatchcase(str(v.get("clause")), f.get("clause", "*")):
+        if not _m(v.get("clause"), f.get("clause", "*")):
             continue
-        if f.get("exc") not in (None, "*") and not fnmatch.fnmatchcase(str((v.get("detail") or {}).get("exc", "")), f["exc"]):
+        if not _m((v.get("detail") or {}).get("exc", ""), f.get("exc")):
             continue
-        if f.get("op") not in (None, "*") and not fnmatch.fnmatchcase(str(v.get("op")), f["op"]):
-            continue
-        if f.get("where") not in (None, "*") and not fnmatch.fnmatchcase(str(v.get("where")), f["where"]):
+        if not _m(v.get("op"), f.get("op")) or not _m(v.get("where"), f.get("where")):
             continue
         return f
     return None
